@@ -68,36 +68,36 @@ var targets = []target{
 	{Group: "Params", Mod: "service", Pkg: "types", Func: "validateRestrictedServiceFeeDenom", Lean: "ServiceValidateRestrictedServiceFeeDenom"},
 	{Group: "Params", Mod: "service", Pkg: "types", Func: "Params.Validate", Lean: "ServiceParamsValidate"},
 	{Group: "Coinswap", Mod: "coinswap", Pkg: "keeper", Func: "Keeper.AddLiquidity", Lean: "AddLiquidity",
-		Locals: []string{"mintLiquidityAmt", "depositAmt"}, Guards: true},
+		Locals: []string{"mintLiquidityAmt", "depositAmt"}, Guards: true, Conds: true},
 	{Group: "Coinswap", Mod: "coinswap", Pkg: "keeper", Func: "Keeper.RemoveLiquidity", Lean: "RemoveLiquidity",
-		Locals: []string{"irisWithdrawnAmt", "tokenWithdrawnAmt"}, Guards: true},
+		Locals: []string{"irisWithdrawnAmt", "tokenWithdrawnAmt"}, Guards: true, Conds: true},
 	{Group: "Coinswap", Mod: "coinswap", Pkg: "keeper", Func: "Keeper.AddUnilateralLiquidity", Lean: "AddUnilateral",
-		Locals: []string{"numerator", "denominator", "square", "mintLptAmt"}, Guards: true},
+		Locals: []string{"numerator", "denominator", "square", "mintLptAmt"}, Guards: true, Conds: true},
 	{Group: "Coinswap", Mod: "coinswap", Pkg: "keeper", Func: "Keeper.RemoveUnilateralLiquidity", Lean: "RemoveUnilateral",
-		Locals: []string{"feeNumerator", "feeDenominator", "targetTokenNumerator", "targetTokenDenominator", "targetTokenAmtAfterFee"}, Guards: true},
+		Locals: []string{"feeNumerator", "feeDenominator", "targetTokenNumerator", "targetTokenDenominator", "targetTokenAmtAfterFee"}, Guards: true, Conds: true},
 	{Group: "Farm", Mod: "farm", Pkg: "keeper", Func: "Keeper.updatePool", Lean: "updatePool",
-		Locals: []string{"blockInterval", "rewardCollected", "newRewardPerShare", "rules_i_RewardPerShare", "rules_i_RemainingReward"}, Guards: true},
+		Locals: []string{"blockInterval", "rewardCollected", "newRewardPerShare", "rules_i_RewardPerShare", "rules_i_RemainingReward"}, Guards: true, Conds: true},
 	{Group: "Farm", Mod: "farm", Pkg: "types", Func: "FarmPool.CaclRewards", Lean: "CaclRewards",
-		Locals: []string{"pendingRewardTotal", "pendingReward", "locked", "debt"}, Guards: true},
+		Locals: []string{"pendingRewardTotal", "pendingReward", "locked", "debt"}, Guards: true, Conds: true},
 	{Group: "Htlc", Mod: "htlc", Pkg: "keeper", Func: "Keeper.IncrementCurrentAssetSupply", Lean: "IncCurrent",
-		Locals: []string{"supplyLimit", "timeBasedSupplyLimit", "supply_TimeLimitedCurrentSupply", "supply_CurrentSupply"}, Guards: true},
+		Locals: []string{"supplyLimit", "timeBasedSupplyLimit", "supply_TimeLimitedCurrentSupply", "supply_CurrentSupply"}, Guards: true, Conds: true},
 	{Group: "Htlc", Mod: "htlc", Pkg: "keeper", Func: "Keeper.DecrementCurrentAssetSupply", Lean: "DecCurrent",
-		Locals: []string{"supply_CurrentSupply"}, Guards: true},
+		Locals: []string{"supply_CurrentSupply"}, Guards: true, Conds: true},
 	{Group: "Htlc", Mod: "htlc", Pkg: "keeper", Func: "Keeper.IncrementIncomingAssetSupply", Lean: "IncIncoming",
-		Locals: []string{"totalSupply", "supplyLimit", "timeLimitedTotalSupply", "timeBasedSupplyLimit", "supply_IncomingSupply"}, Guards: true},
+		Locals: []string{"totalSupply", "supplyLimit", "timeLimitedTotalSupply", "timeBasedSupplyLimit", "supply_IncomingSupply"}, Guards: true, Conds: true},
 	{Group: "Htlc", Mod: "htlc", Pkg: "keeper", Func: "Keeper.DecrementIncomingAssetSupply", Lean: "DecIncoming",
-		Locals: []string{"supply_IncomingSupply"}, Guards: true},
+		Locals: []string{"supply_IncomingSupply"}, Guards: true, Conds: true},
 	{Group: "Htlc", Mod: "htlc", Pkg: "keeper", Func: "Keeper.IncrementOutgoingAssetSupply", Lean: "IncOutgoing",
-		Locals: []string{"supply_OutgoingSupply"}, Guards: true},
+		Locals: []string{"supply_OutgoingSupply"}, Guards: true, Conds: true},
 	{Group: "Htlc", Mod: "htlc", Pkg: "keeper", Func: "Keeper.DecrementOutgoingAssetSupply", Lean: "DecOutgoing",
-		Locals: []string{"supply_OutgoingSupply"}, Guards: true},
-	{Group: "Htlc", Mod: "htlc", Pkg: "keeper", Func: "Keeper.createHTLT", Lean: "createHTLT", Guards: true},
+		Locals: []string{"supply_OutgoingSupply"}, Guards: true, Conds: true},
+	{Group: "Htlc", Mod: "htlc", Pkg: "keeper", Func: "Keeper.createHTLT", Lean: "createHTLT", Guards: true, Conds: true},
 	{Group: "Htlc", Mod: "htlc", Pkg: "keeper", Func: "Keeper.UpdateTimeBasedSupplyLimits", Lean: "UpdateWindow",
 		Locals: []string{"newTimeElapsed", "supply_TimeElapsed"}, Guards: true, Conds: true},
 	{Group: "Random", Mod: "random", Pkg: "types", Func: "PRNG.GetRand", Lean: "GetRand",
 		Locals: []string{"seedBT", "seedBH", "seedTI", "seedSum", "seedOS", "precision"}, Conds: true},
 	{Group: "TokenFee", Mod: "token", Pkg: "keeper", Func: "Keeper.MintToken", Lean: "MintToken",
-		Locals: []string{"precision", "mintableAmt"}, Guards: true},
+		Locals: []string{"precision", "mintableAmt"}, Guards: true, Conds: true},
 	{Group: "Service", Mod: "service", Pkg: "keeper", Func: "Keeper.AddEarnedFee", Lean: "AddEarnedFee",
 		Locals: []string{"taxAmount"}},
 	{Group: "Service", Mod: "service", Pkg: "keeper", Func: "Keeper.Slash", Lean: "Slash",
